@@ -207,6 +207,10 @@ def _bulk_per_tile_query(ex, st, post, result):
     goal = z3.BoolVal(bool(ok))
     if ok:
         goal = z3.And(goal, eq(mq[0].args[1], grid['tile_size']), eq(mq[0].args[2], grid['srs']))
+        # the FULL rectangle of the tile (a rectangle cut to the grid extent would be stretched to the full tile size)
+        lim = tb[0].kwargs.get('limit')
+        pos = [a for a in tb[0].args if a is not tb[0].recv and getattr(a, 'ref', None) != getattr(self_h['grid'], 'ref', -1)]
+        goal = z3.And(goal, z3.BoolVal(len(pos) == 1), z3.Not(ex.truth(st, lim)) if lim is not None else z3.BoolVal(True))
         for t in tl:
             goal = z3.And(goal, eq(t.args[0], tb[0].args[-1]), z3.BoolVal('cacheable' in t.kwargs))
     yield ('bulk_worker_queries_the_tile_rectangle', goal,
